@@ -1,5 +1,6 @@
 import PynguinModel.Lemmas.TestCaseAppend
 import PynguinModel.Lemmas.TestCaseRegistry
+import PynguinModel.Lemmas.TestCaseUnusedKeep
 /-!
 # C15 — Variation operators keep every test case well-formed
 
@@ -180,6 +181,11 @@ theorem delete_gracefully_preserves_WF {tc tc' : TC} {b : Bool} (h : WF tc) {pos
 
 theorem remove_unused_preserves_WF {tc : TC} (h : WF tc) : WF tc.removeUnused := h.removeUnused
 
+/-- ... in both versions of the pass: the snapshot's (`keep = false`) and the one with C19's repair, where
+variables read by a statement's assertions stay alive and the unbound statement keeps its assertions -/
+theorem remove_unused_v_preserves_WF {tc : TC} (h : WF tc) (keep : Bool) : WF (tc.removeUnusedV keep) :=
+  h.removeUnusedV keep
+
 /-- crossover building block: fresh names for the appended tail, references into the other parent's
 head remapped to variables of this test case, statements whose references cannot be satisfied are
 dropped together with their readers — never a dangling read, whatever `randomness.choice` returns -/
@@ -261,7 +267,7 @@ inductive Reach : TC → Prop
       Reach tc → closedD [] tc.stmts (idxMaskFrom idxs 0 tc.stmts.length) → Reach (tc.removeBatch idxs)
   | removeFwd {tc tc' i r} : Reach tc → tc.removeFwd i = some (tc', r) → Reach tc'
   | deleteGracefully {tc tc' p b} : Reach tc → tc.deleteGracefully p = some (tc', b) → Reach tc'
-  | removeUnused {tc} : Reach tc → Reach tc.removeUnused
+  | removeUnused {tc} (keep : Bool) : Reach tc → Reach (tc.removeUnusedV keep)
   | appendFrom {tc other} (start : Nat) (draws : List Nat) :
       Reach tc → Reach other → Reach (tc.appendFrom other.stmts start draws)
   | crossover {parent other} (chromLen p1 p2 : Nat) (draws : List Nat) :
@@ -285,7 +291,7 @@ theorem histories_WF {tc : TC} (h : Reach tc) : WF tc := by
   | removeBatch idxs _ hc ih => exact ih.maskFilter hc
   | removeFwd _ hr ih => exact remove_fwd_preserves_WF ih hr
   | deleteGracefully _ hr ih => exact delete_gracefully_preserves_WF ih hr
-  | removeUnused _ ih => exact ih.removeUnused
+  | removeUnused keep _ ih => exact ih.removeUnusedV keep
   | appendFrom start draws _ _ ih1 ih2 => exact append_from_preserves_WF ih1 ih2 start draws
   | crossover chromLen p1 p2 draws _ _ ih1 ih2 => exact splice_result_preserves_WF ih1 ih2 chromLen p1 p2 draws
   | mutateChop cm cl last _ ih => exact mutate_chop_preserves_WF ih cm cl last
@@ -309,7 +315,11 @@ example : ReplaceOK exTC 1 { exS1 with btype := some 7 } := (replaceOKb_iff _ _ 
 example : (exTC.deleteGracefully 0).map (fun r => r.1.size) = some 0 := by decide
 example : exTC.forwardDeps 1 = some [1, 2] := by decide
 /-- `remove_unused_variables` unbinds the unread `var_2` (and drops its assertion — C19's concern) -/
-example : (exTC.removeUnused.stmts.map (·.bound)) = [some (.var 0), some (.var 1), none] := by decide
+example : (exTC.removeUnused.stmts.map (fun s => (s.bound, s.asserts))) =
+    [(some (.var 0), []), (some (.var 1), []), (none, [])] := by decide
+/-- with C19's repair the asserted `var_2` stays bound (its own assertion reads it) -/
+example : ((exTC.removeUnusedV true).stmts.map (fun s => (s.bound, s.asserts))) =
+    [(some (.var 0), []), (some (.var 1), []), (some (.var 2), [.var 2])] := by decide
 /-- crossover of `exTC` with itself at (1, 2): the tail statement reads `var_1` of the other parent's head,
 no `Point`-typed variable exists in the offspring head, so the statement is dropped, not left dangling -/
 example : (splice 10 exTC exTC 1 2 []).1.stmts = [exS0] := by decide
